@@ -1018,7 +1018,7 @@ class DavSys:
                     # the one commit of a write to one member differs from its parent (the previous head, audited before) in that member only
                     ptree = {n: v for n, v in pa["git"]["tree"].items() if n != ".xandikos"}
                     ntree = {n: v for n, v in g["tree"].items() if n != ".xandikos"}
-                    others = sorted(n for n in set(ptree) | set(ntree) if n != tname and ptree.get(n) != ntree.get(n))
+                    others = sorted(n for n in set(ptree) | set(ntree) if n not in (tname, urllib.parse.unquote(tname)) and ptree.get(n) != ntree.get(n))
                     if others:
                         self.violation("C09", "commit-changes-other-members:%s" % kind, "the commit of a %s of %s also changes %s relative to its parent" % (kind, tname, others), {"op": op, "coll": coll, "others": others})
             if delta == 0 and commits and pcommits and commits[0] != pcommits[0]:
